@@ -889,3 +889,71 @@ func (p *Prog) groupChar(v string, idx int, lit string) (string, bool) {
 	}
 	return "", false
 }
+
+// charSeqAxiom: for a language ^C1 C2 ... Cn$ whose Ci are ASCII character classes, membership of an
+// explicit n-element sequence is the conjunction of the class tests (engine-generated bridging fact
+// between byte-level terms and the language predicate; listed in the trusted base).
+func charSeqAxiom(name, pattern string) string {
+	re, err := syntax.Parse(pattern, syntax.Perl)
+	if err != nil {
+		return ""
+	}
+	re = re.Simplify()
+	var items []*syntax.Regexp
+	if re.Op == syntax.OpConcat {
+		items = re.Sub
+	} else {
+		items = []*syntax.Regexp{re}
+	}
+	if len(items) < 3 || items[0].Op != syntax.OpBeginText || items[len(items)-1].Op != syntax.OpEndText {
+		return ""
+	}
+	items = items[1 : len(items)-1]
+	var classes [][]rune
+	for _, it := range items {
+		switch it.Op {
+		case syntax.OpLiteral:
+			if it.Flags&syntax.FoldCase != 0 {
+				return ""
+			}
+			for _, r := range it.Rune {
+				classes = append(classes, []rune{r, r})
+			}
+		case syntax.OpCharClass:
+			classes = append(classes, it.Rune)
+		default:
+			return ""
+		}
+	}
+	if len(classes) == 0 || len(classes) > 8 {
+		return ""
+	}
+	var vars, tests []string
+	term := ""
+	for i := len(classes) - 1; i >= 0; i-- {
+		v := fmt.Sprintf("c%d", i)
+		if term == "" {
+			term = "(bs_unit " + v + ")"
+		} else {
+			term = "(bs_cat (bs_unit " + v + ") " + term + ")"
+		}
+	}
+	for i, cl := range classes {
+		v := fmt.Sprintf("c%d", i)
+		vars = append(vars, "("+v+" Int)")
+		var ds []string
+		for k := 0; k+1 < len(cl); k += 2 {
+			lo, hi := cl[k], cl[k+1]
+			if hi >= 0x80 {
+				return "" // only ASCII classes: a byte below 0x80 is the code point itself (U1)
+			}
+			if lo == hi {
+				ds = append(ds, fmt.Sprintf("(= %s %d)", v, lo))
+			} else {
+				ds = append(ds, fmt.Sprintf("(and (<= %d %s) (<= %s %d))", lo, v, v, hi))
+			}
+		}
+		tests = append(tests, sOr(ds...))
+	}
+	return fmt.Sprintf("(assert (forall (%s) (! (= (inlang_%s %s) %s) :pattern ((inlang_%s %s)))))", strings.Join(vars, " "), name, term, sAnd(tests...), name, term)
+}
